@@ -48,3 +48,48 @@ Proof.
   intros L mask os Hw. split; [apply scan_objects_format_lemma; exact Hw|].
   intros o Ho. apply inert_option_lemma. exact Ho.
 Qed.
+
+(* ---- the scanned value of a formatted text lists every dictionary's keys in SortedKeys order ---- *)
+Lemma keys_sorted_ordered ks : keys_sorted ks -> keys_ordered ks = true.
+Proof.
+  induction 1 as [|a r Hs IH Hall]; [reflexivity|].
+  destruct r as [|b r']; [reflexivity|].
+  change (keys_ordered (a :: b :: r')) with (key_ltb a b && keys_ordered (b :: r')). rewrite IH, andb_true_r.
+  rewrite Forall_forall in Hall. apply Hall. left. reflexivity.
+Qed.
+Lemma text_ordered_dict l :
+  text_ordered (ODict l) = keys_ordered (map fst l) && forallb (fun kv => text_ordered (snd kv)) l.
+Proof.
+  cbn [text_ordered]. f_equal. induction l as [|[k v] r IH]; [reflexivity|].
+  cbn [forallb snd]. rewrite <- IH. reflexivity.
+Qed.
+Lemma norm_text_ordered L : forall o d, wf_obj L d o = true -> text_ordered (norm o) = true.
+Proof.
+  induction o as [| | | | | |l IH|l IH| | |] using obj_ind2; intros d Hw; try reflexivity.
+  - cbn [norm text_ordered]. cbn [wf_obj] in Hw. apply andb_true_iff in Hw as [_ Hall].
+    rewrite forallb_forall in Hall. rewrite Forall_forall in IH.
+    apply forallb_forall. intros x Hx. apply in_map_iff in Hx as (y & <- & Hy).
+    apply (IH y Hy (d + 1)%N). apply Hall. exact Hy.
+  - rewrite norm_dict, text_ordered_dict. cbn [wf_obj] in Hw.
+    apply andb_true_iff in Hw as [Hw Hall]. apply andb_true_iff in Hw as [Hw _].
+    apply andb_true_iff in Hw as [_ Hnd]. apply nodup_keys_NoDup in Hnd.
+    apply andb_true_iff. split.
+    + apply keys_sorted_ordered. apply sorted_map_fst. apply sort_sorted.
+      rewrite norm_entries_map, (map_fst_keyed (fun kv => norm (snd kv))).
+      apply NoDup_filter_fst. exact Hnd.
+    + apply forallb_forall. intros kv Hkv.
+      apply (Permutation.Permutation_in _ (sort_perm (norm_entries l))) in Hkv.
+      rewrite norm_entries_map in Hkv. apply in_map_iff in Hkv as (y & <- & Hy).
+      apply filter_In in Hy as [Hy _]. cbn [snd].
+      rewrite Forall_forall in IH. rewrite forallb_forall in Hall.
+      specialize (Hall y Hy). apply andb_true_iff in Hall as [_ Hwv].
+      apply (IH y Hy (d + 1)%N). exact Hwv.
+Qed.
+Lemma scan_text_ordered_lemma : forall L p os, wf_list L os = true ->
+  exists vs, scan_objects L (format p os) = Ok (vs, []) /\ forallb text_ordered vs = true.
+Proof.
+  intros L p os Hw. exists (map norm os). split; [apply scan_objects_format_lemma; exact Hw|].
+  unfold wf_list in Hw. apply andb_true_iff in Hw as [_ Hall]. rewrite forallb_forall in Hall.
+  apply forallb_forall. intros x Hx. apply in_map_iff in Hx as (y & <- & Hy).
+  apply (norm_text_ordered L y 1%N). apply Hall. exact Hy.
+Qed.
